@@ -83,3 +83,15 @@ claim('C02', 'translation_validation',
       _TB + '; creation order is observed by wrapping SynthDef._add_ugen from the harness.',
       'symbolic execution of the real builder/writer/reader + independent structural validation per path',
       'DESIGN.md 3/C02')
+
+claim('C04', 'translation_validation',
+      'All signatures of up to 3 (quick) / 4 (thorough, plus 40-parameter ones) parameters over a table of 14 '
+      'parameter kinds (annotation x rates entry x default shape) with SYMBOLIC default, lag and variant values, plus '
+      'prepend, one level of SynthDef.wrap, metadata spec defaults, 1-3 variants and the callable interface, are built '
+      'by the real SynthDef; the decoded definition is compared with a reference layout (slots by rate group and '
+      'declaration order, name table -> first slot, Control/TrigControl/AudioControl/LagControl kind, rate, first slot '
+      'and lag inputs, variant blocks) with z3 equality for every value, and the objects the body received are checked '
+      'to be the control outputs at the parameter\'s slots.',
+      _TB + '; the reference layout in vf/props/c04.py is transcribed from the property statement.',
+      'symbolic execution of the real builder + decoded-bytes vs reference layout (SMT equality per value)',
+      'DESIGN.md 3/C04')
